@@ -104,6 +104,19 @@ for mid, (prop, change, needs) in R.items():
         meta["detection"] = json.load(open(dj))
     json.dump(meta, open(os.path.join(d, "meta.json"), "w"), indent=1)
 
+# hand-made changes from the sensitivity list of DESIGN.md §6 (hand.txt: property, change, what it needs)
+for mid in sorted(os.listdir('/verif/seeded')):
+    d = f"/verif/seeded/{mid}"
+    if not mid.startswith('hand_') or not os.path.exists(f"{d}/hand.txt"):
+        continue
+    prop, change, needs = open(f"{d}/hand.txt").read().strip().split("\n")[:3]
+    meta = {"id": mid, "breaks_property": prop, "change": change, "needs_to_manifest": needs,
+            "origin": "written by hand from the sensitivity list of DESIGN.md §6 (simple, classic slips)", "files": {"patch": "patch.diff"}}
+    for extra, key in (("confirm.json", "confirmed_by_me"), ("detect.json", "detection")):
+        if os.path.exists(os.path.join(d, extra)):
+            meta[key] = json.load(open(os.path.join(d, extra)))
+    json.dump(meta, open(os.path.join(d, "meta.json"), "w"), indent=1)
+
 for mid, (prop, change, needs) in M.items():
     d = f"/verif/seeded/{mid}"
     if not os.path.isdir(d):
